@@ -231,6 +231,17 @@ def vectors(run):
         V.append(('_flatten_list', ([[vals[0], [vals[1]]], [[vals[2]], vals[3]]],)))
         V.append(('_count', ([[vals[:2]], [vals[2:]]], [5, '7', True], [vals[0]])))
         V.append(('_concat_arrays_values', (vals[:2], vals[1:])))
+    # lists holding error values (every ordered pair of the seven, alone, with numbers around them) and texts that merely start with '#'
+    errs = ['#NUM!', '#DIV/0!', '#N/A', '#NAME?', '#NULL!', '#REF!', '#VALUE!']
+    for a in errs + ['#41', '#A7', '#tag']:
+        for b in errs + [None]:
+            if a == b:
+                continue
+            lst = [3, a, 'x', 5] if b is None else [3, a, 'x', b, 5]
+            for h in ('_find_error_in_list', '_min', '_max', '_count_blank', '_sum', '_average'):
+                V.append((h, (list(lst),)))
+            V.append(('_iferror', ((lambda v=a: v), (lambda: 'fallback'))))
+            V.append(('_ifs', ([(lambda v=a: v), (lambda: 1), (lambda: True), (lambda v=b: v)],)))
     # C14
     r = run.tlc('Gen_C14', ['INIT Init', 'NEXT Next', 'CONSTANT Kind = "LOOKUP"', 'CONSTANT Keys = {10, 20, 30, 40}', f'CONSTANT L = {3 if q else 4}',
                             'CONSTANT Vals = {5, 10, 15, 20, 25, 30, 35, 40, 45}'], workers=4, timeout=1800, tag='C20_Gen_C14_L')
